@@ -685,8 +685,21 @@ impl Future for Wrapper {
         if this.inner.is_none() {
             return Poll::Ready(());
         }
+        // (dropping a task's future runs destructors; with tolerate_lib_panics a panic from one of them ends
+        // this task only, like a panic from its poll)
+        let drop_inner = |this: &mut Wrapper| {
+            let tolerate = this.ordinal != usize::MAX && with_exec(|e| e.cfg.tolerate_lib_panics).unwrap_or(false);
+            let fut = this.inner.take();
+            if tolerate {
+                if std::panic::catch_unwind(std::panic::AssertUnwindSafe(move || drop(fut))).is_err() {
+                    log(format!("TASK-PANIC ordinal={} name={:?}: a destructor panicked while the task's future was dropped", this.ordinal, this.name));
+                }
+            } else {
+                drop(fut);
+            }
+        };
         if this.shared.aborted.load(Ordering::SeqCst) {
-            this.inner.take();
+            drop_inner(this);
             this.shared.finished.store(true, Ordering::SeqCst);
             return Poll::Ready(());
         }
@@ -701,7 +714,7 @@ impl Future for Wrapper {
         }
         if this.cut_at == Some(this.polls) {
             log(format!("CUT task ordinal={} name={:?} before poll {}", this.ordinal, this.name, this.polls));
-            this.inner.take();
+            drop_inner(this);
             this.shared.finished.store(true, Ordering::SeqCst);
             return Poll::Ready(());
         }
